@@ -7,11 +7,16 @@ fields("xandikos.store.git.GitStore", {
     "_uid_to_fname": "dict[str,tuple[str,str]]",
     "_fname_to_uid": "dict[str,tuple[str,opt[str]]]",
     "_check_for_duplicate_uids": "bool",
-    "repo": "opaque:Repo",
+    "repo": "obj:abstract.Repo",
     "extra_file_handlers": "opaque:Handlers",
     "ghost_M": "dict[str,str]",
+    "ghost_locked": "bool",
+    "ghost_cfg": "opt[str]",
     "ref": "bytes",
 })
+
+
+view("xandikos.store.git.GitStore", "ghost_trees", "abs_trees_view")
 
 
 def uid_ok(f):
@@ -64,22 +69,32 @@ def store_inv(self):
             and members_in_store(self, self.ghost_M))
 
 
+def tree_for(self, ctag):
+    """The member map a ctag denotes: the current one for None, a recorded one otherwise."""
+    return self.ghost_M if ctag is None else self.ghost_trees[ctag]
+
+
+def enumerates(result, T):
+    """result lists the entries of map T, each once, in T's (unspecified) enumeration order."""
+    return (len(result) == len(keys_list(T))
+            and forall("int", lambda j: implies(
+                0 <= j and j < len(result),
+                result[j][0] == keys_list(T)[j]
+                and result[j][2].decode("ascii") == T[result[j][0]])))
+
+
 @contract("xandikos.store.git.GitStore._iterblobs",
           params={"self": "obj:xandikos.store.git.GitStore", "ctag": "opt[str]"},
-          returns="list[tuple[str,int,bytes]]", cases="ctag is None")
+          returns="list[tuple[str,int,bytes]]")
 class GitStore_iterblobs:
-    """Interface contract (refined by BareGitStore / TreeGitStore): the current members,
-    each once, in an unspecified order."""
+    """Interface contract (BareGitStore / TreeGitStore): the members of the tree `ctag`
+    denotes, each once, in an unspecified order; unknown ctag -> InvalidCTag."""
 
-    def requires(self, ctag):
-        return ctag is None
+    def raises_InvalidCTag(self, ctag):
+        return ctag is not None and ctag not in self.ghost_trees
 
     def ensures(self, ctag, result):
-        return (len(result) == len(keys_list(self.ghost_M))
-                and forall("int", lambda j: implies(
-                    0 <= j and j < len(result),
-                    result[j][0] == keys_list(self.ghost_M)[j]
-                    and result[j][2].decode("ascii") == self.ghost_M[result[j][0]])))
+        return enumerates(result, tree_for(self, ctag))
 
 
 @contract("xandikos.store.open_by_extension",
@@ -110,10 +125,7 @@ class GitStore_scan_uids:
         F0 = old(self._fname_to_uid)
         M = self.ghost_M
         return (
-            len(_seq) == len(keys_list(M))
-            and forall("int", lambda j: implies(0 <= j and j < len(_seq),
-                                                _seq[j][0] == keys_list(M)[j]
-                                                and _seq[j][2].decode("ascii") == M[_seq[j][0]]))
+            enumerates(_seq, M)
             and forall("str", lambda n: implies(processed(M, n, _i), n in F and F[n][0] == M[n]))
             and forall("str", lambda n: implies(not processed(M, n, _i),
                                                 (n in F) == (n in F0) and implies(n in F0, F[n] == F0[n])))
